@@ -123,3 +123,38 @@ Corollary is_scalar_terminates d chk s :
   exists bound, forall fuel, bound < fuel -> is_scalar fuel d chk s <> Err VE_fuel.
 Proof. exists (mu d [] s). intros fuel H. apply is_scalar_path_terminates. exact H. Qed.
 
+
+(* ... and so does the array-of-strings test of the wildcard parameter *)
+Lemma resolve_no_fuel d : forall fuel seen s,
+  NoDup seen -> incl seen (names d) -> length seen + fuel > length d ->
+  resolve fuel d seen s <> Err VE_fuel.
+Proof.
+  induction fuel as [|f IH]; intros seen s Hnd Hinc Hlen; destruct s; cbn [resolve]; try discriminate.
+  - exfalso. pose proof (NoDup_incl_length Hnd Hinc) as Hle. unfold names in Hle. rewrite map_length in Hle. lia.
+  - destruct (mem_str name seen) eqn:Hm; [discriminate|].
+    destruct (lookup_def name d) as [s'|] eqn:Hl; [|discriminate].
+    apply IH.
+    + constructor; [|exact Hnd]. intros Hin. apply mem_str_In in Hin. congruence.
+    + intros x [<-|Hx]; [exact (proj1 (lookup_def_in _ _ _ Hl))|apply Hinc; exact Hx].
+    + cbn [length]. lia.
+Qed.
+
+Lemma resolve_size d : forall fuel seen s s',
+  resolve fuel d seen s = Ok s' -> size s' <= Nat.max (size s) (bodymax d).
+Proof.
+  induction fuel as [|f IH]; intros seen s s' H; destruct s; cbn [resolve] in H;
+    try (injection H as <-; lia); try discriminate.
+  destruct (mem_str name seen); [discriminate|].
+  destruct (lookup_def name d) as [b|] eqn:Hl; [|discriminate].
+  specialize (IH _ _ _ H). pose proof (proj2 (lookup_def_in _ _ _ Hl)). cbn [size]. lia.
+Qed.
+
+Corollary is_string_array_terminates d s :
+  exists bound, forall fuel, bound < fuel -> is_string_array fuel d s <> Err VE_fuel.
+Proof.
+  exists (fresh d [] * S (bodymax d) + Nat.max (size s) (bodymax d)). intros fuel H. unfold is_string_array.
+  destruct (resolve (S (length d)) d [] s) as [s'|e] eqn:Hr; cbn [bind].
+  2:{ intros [= ->]. revert Hr. apply resolve_no_fuel; [constructor|intros x []|cbn [length]; lia]. }
+  pose proof (resolve_size d _ _ _ _ Hr) as Hsz.
+  destruct s'; try discriminate. apply is_scalar_path_terminates. unfold mu. cbn [size] in Hsz. lia.
+Qed.
